@@ -14,6 +14,10 @@ Histories per project
   kill       fault injection: the installing process is SIGKILLed at its N-th mutating event (2-3 points) and by an
              install script that runs last; the log names every file/symlink created so far (at most the one in flight
              missing), uninstall removes exactly those
+  abort      fault injection: the install aborts with an error (source vanished after configure / destination occupied by
+             the wrong type / last install script exits non-zero); everything created - directories too - is in the
+             log and uninstall restores the pre-install snapshot
+  (coincide) extra data-only projects whose absolute install dirs / prefix textually start with their DESTDIR
   combo      (thorough) --tags + --skip-subprojects + --quiet
   strace     (thorough; <=4 projects in quick) cold `meson install [--strip]` under strace -f: every mutating
              syscall of every process beneath DESTDIR (or meson-logs)
@@ -42,6 +46,7 @@ K_HDR = 'headers:install_dir-ignores-preserve_path'
 K_WS = 'uninstall:trailing-whitespace-in-logged-name'
 K_DIRLINK = 'subdir:symlink-to-directory-crashes-install'
 K_RELINK = 'reinstall:copied-symlink-exists-FileExistsError'
+K_DANGLE = 'data:dangling-symlink-source-with-rename-crashes'
 
 
 # --------------------------------------------------------------------------------------------------------
@@ -68,6 +73,7 @@ class Ctx:
         self.build_snap: T.Dict[str, list] = {}
         self.real_pre: T.Dict[str, bool] = {}
         self.full_events = 0
+        self.fixed_dest: T.Optional[str] = None   # coincide projects: the DESTDIR their install dirs were derived from
         self.history = ''
         self.step = ''
         self.form = ''
@@ -79,7 +85,7 @@ class Ctx:
         mech = refine(mech, w, self.spec)
         w = dict(w)
         w.update({'history': self.history, 'step': self.step, 'destdir_form': self.form,
-                  'project': {'seed': self.spec['seed'], 'kind': self.spec['kind'], 'probe': self.spec.get('probe')}})
+                  'project': {'seed': self.spec['seed'], 'kind': self.spec['kind'], 'probe': self.spec.get('probe'), 'coincide': bool(self.spec.get('coincide'))}})
         self.viol.append((mech, w))
 
     def addall(self, vs: T.Sequence[T.Tuple[str, dict]]) -> None:
@@ -118,6 +124,13 @@ def refine(mech: str, w: dict, spec: dict) -> str:
         return K_WS
     if mech.startswith('install:internal-error:FileExistsError') and 'os.symlink(os.readlink(src), dst)' in w.get('output_tail', ''):
         return K_RELINK
+    if mech.startswith('install:internal-error') and 'FileNotFoundError' in w.get('output_tail', ''):
+        # a source symlink that dangles at install time is replicated under its own name, not under the `rename:` name
+        import re as _re
+        mm = _re.search(r"No such file or directory: '([^']*)'", w.get('output_tail', ''))
+        base = os.path.basename(mm.group(1)) if mm else None
+        if base and any(r['kind'] == 'data' and r.get('rename') and base in [os.path.basename(x) for x in r['rename']] for r in rules):
+            return K_DANGLE
     if mech.startswith('install:internal-error:IsADirectoryError') and any(r.get('dir_symlink') for r in rules):
         return K_DIRLINK
     return mech
@@ -133,7 +146,18 @@ class Dest:
         self.decoy: T.Optional[str] = None
         self.precreated = False
         S = ctx.S
-        if form in ('env-rel', 'opt-rel'):
+        if ctx.fixed_dest is not None:
+            # the project was configured for this very DESTDIR (absolute dirs textually related to it)
+            form = self.form = {'env-rel': 'env-abs', 'opt-rel': 'opt-abs', 'env-abs-nested': 'env-abs'}.get(form, form)
+            self.container = os.path.dirname(ctx.fixed_dest)
+            self.destdir = ctx.fixed_dest
+            os.makedirs(self.container)
+            given = self.destdir + ('/' if form == 'env-abs-slash' else '')
+            if form == 'env-abs-precreated':
+                os.mkdir(self.destdir, 0o755)
+                os.chmod(self.destdir, 0o755)
+                self.precreated = True
+        elif form in ('env-rel', 'opt-rel'):
             rel = f'rel stage {name}/d'
             self.container = os.path.join(ctx.bdir, f'rel stage {name}')
             self.destdir = os.path.join(ctx.bdir, rel)
@@ -617,6 +641,121 @@ def h_kill(ctx: Ctx, rng: random.Random, form: str) -> None:
             dd.cleanup()
 
 
+def _aborted_install(ctx: Ctx, dd: Dest, env_extra: T.Mapping[str, str]) -> T.Optional[Obs]:
+    """`meson install` that is expected to abort with an error (injected fault); containment is checked as always."""
+    o = Obs()
+    env = ctx.base_env()
+    env.update(dd.env)
+    env.update(env_extra)
+    argv = install_argv(ctx, dd)
+    o.pre = A.snapshot(dd.container)
+    r = runner.meson(argv, cwd=ctx.S, env=env, monitors=[A.audit_monitor('install-abort')], timeout=180)
+    o.post = A.snapshot(dd.container)
+    real_fs_guard(ctx, argv)
+    o.rc, o.out, o.records = r.rc, r.out + r.err, r.records
+    if r.timed_out:
+        ctx.inconclusive.append('timeout:install-abort')
+        return None
+    if r.rc == 0:
+        ctx.count('abort-fault-not-reached')   # e.g. the removed source was only reached through a symlink
+        return None
+    if r.traceback or 'Unhandled python' in o.out or r.signal:
+        ctx.add('install:internal-error:under-injected-fault', {'argv': argv, 'rc': r.rc, 'output_tail': o.out[-1200:]})
+        return None
+    v, c = A.check_audit_containment(r.records, dd.zones(ctx))
+    ctx.addall(v)
+    ctx.count('monitor:audit-events', c['events'])
+    ctx.count('monitor:containment-checks')
+    o.log, o.comments = A.read_log(os.path.join(ctx.bdir, 'meson-logs', 'install-log.txt'))
+    o.ok = True
+    return o
+
+
+def h_abort(ctx: Ctx, rng: random.Random, form: str, only: T.Optional[str] = None) -> None:
+    """Fault injection: the install aborts with an error part-way (a source vanished after configuring; a destination
+    is occupied by an object of the wrong type; the last install script fails).  Everything the aborted run created -
+    directories too - is named by the log, and uninstall brings the container back to the pre-install snapshot."""
+    spec = ctx.spec
+    expected, _ = G.expected_tree(spec)
+    ents = [e for e in spec['entries'] if not e.get('by_script')]
+    src_victims = [e for e in ents if e['type'] == 'file' and e.get('src') and not e['src'].startswith('build:')
+                   and e['kind'] in ('data', 'headers', 'man')]
+    # prefer rules that are carried out late, so that something was created before the abort
+    src_victims.sort(key=lambda e: {'data': 0, 'man': 1, 'headers': 2}[e['kind']])
+    blockable = [e for e in ents if e['type'] in ('file', 'symlink') or e['kind'] == 'emptydir']
+    faults = []
+    if src_victims:
+        faults.append('source-vanished')
+    if blockable:
+        faults.append('destination-occupied')
+    rng.shuffle(faults)
+    if only:
+        faults = [f for f in faults if f == only]
+    elif ctx.tier == 'quick':
+        faults = faults[:1]
+    if spec.get('has_killer') and not only:
+        faults.append('script-fails')
+    for i, fault in enumerate(faults):
+        dd = Dest(ctx, f'abort{i}', form)
+        moved: T.Optional[T.Tuple[str, str]] = None
+        try:
+            env_extra: T.Dict[str, str] = {}
+            what: T.Any = None
+            if fault == 'source-vanished':
+                k0 = src_victims[0]['kind']
+                e = rng.choice([x for x in src_victims if x['kind'] == k0])
+                sp = os.path.join(ctx.src, e['src'])
+                moved = (sp, sp + '.c11-away')
+                os.rename(*moved)
+                what = e['src']
+            elif fault == 'destination-occupied':
+                e = rng.choice(blockable)
+                p = dd.destdir + e['path']
+                os.makedirs(os.path.dirname(p), exist_ok=True)
+                if e['type'] == 'dir':
+                    with open(p, 'w', encoding='utf-8') as f:     # a file where install_emptydir wants a directory
+                        f.write('in the way\n')
+                else:
+                    os.makedirs(p, exist_ok=True)                  # a directory where a file/symlink is to be installed
+                what = {'path': e['path'], 'wanted': e['type'], 'kind': e['kind']}
+            else:
+                env_extra['C11_SCRIPT_EXIT'] = str(rng.choice([1, 3, 42]))
+                what = env_extra['C11_SCRIPT_EXIT']
+            pre = A.snapshot(dd.container)
+            ctx.step = f'install aborted by fault {fault}'
+            o = _aborted_install(ctx, dd, env_extra)
+            if o is None:
+                continue
+            ctx.count('monitor:abort-runs')
+            ctx.count(f'abort-fault:{fault}')
+            not_logged, left = script_leftovers(ctx, dd, expected)
+            named = set(o.log)
+            created = sorted(set(o.post) - set(o.pre))
+            ctx.count('monitor:abort-created-paths', len(created))
+            ctx.count('monitor:abort-created-dirs', sum(1 for rel in created if o.post[rel][0] == 'dir'))
+            nbad = 0
+            for rel in created:
+                p = dd.container if rel == '.' else os.path.join(dd.container, rel)
+                if p in named or p in not_logged:
+                    continue
+                nbad += 1
+                if nbad <= 3:
+                    ctx.add(f'abort:log-misses-created:{o.post[rel][0]}', {'path': p, 'fault': fault, 'what': what, 'rc': o.rc,
+                                                                            'created': len(created), 'log_names': len(o.log)})
+            ctx.step += ' -> uninstall'
+            u = run_meson(ctx, dd, ['--internal', 'uninstall'], 'uninstall', cwd=ctx.bdir)
+            if not u.ok:
+                continue
+            ctx.count('monitor:abort-uninstall-compared')
+            for m, w in A.check_uninstalled(pre, u.post, left):
+                w.update({'fault': fault, 'what': what})
+                ctx.add('abort:' + m, w)
+        finally:
+            if moved:
+                os.rename(moved[1], moved[0])
+            dd.cleanup()
+
+
 def run_history(ctx: Ctx, h: str) -> None:
     spec = ctx.spec
     rng = random.Random(f'c11hist:{spec["seed"]}:{h}')
@@ -651,6 +790,10 @@ def run_history(ctx: Ctx, h: str) -> None:
         h_strace(ctx, rng, form)
     elif h == 'kill':
         h_kill(ctx, rng, form)
+    elif h == 'abort':
+        h_abort(ctx, rng, form)
+    elif h.startswith('abort='):
+        h_abort(ctx, rng, form, only=h[6:])
     elif h == 'probe':
         h_reverse(ctx, rng, form, [], None, None, h)
     ctx.cases.append(common.digest([spec['kind'], spec['features'], h, form, len(spec['entries'])]))
@@ -658,13 +801,20 @@ def run_history(ctx: Ctx, h: str) -> None:
     ctx.count(f'destdir-form:{form}')
     if len(ctx.viol) == n0:
         ctx.count('histories-clean')
+    if spec.get('coincide'):
+        ctx.count('history-on-coincide-project')
 
 
 def run_project(task: T.Tuple[dict, str, float, T.List[str], str]) -> dict:
     spec, tier, deadline, histories, scratch = task
     os.umask(0o022)
     root = os.path.realpath(tempfile.mkdtemp(prefix='p-', dir=scratch))
+    fixed = None
+    if spec.get('coincide'):
+        fixed = os.path.join(root, 'cstage', 'dest')
+        spec = G.resolve_destdir(spec, fixed)
     ctx = Ctx(spec, root, tier, deadline, histories)
+    ctx.fixed_dest = fixed
     t0 = time.time()
     try:
         for d in (ctx.src, ctx.home, ctx.tmp):
@@ -690,7 +840,10 @@ def run_project(task: T.Tuple[dict, str, float, T.List[str], str]) -> dict:
         ctx.src_snap = A.snapshot(ctx.src)
         ctx.build_snap = A.snapshot(ctx.bdir, exclude=[os.path.join(ctx.bdir, 'meson-logs')])
         full, _ = G.expected_tree(spec)
-        ctx.real_pre = {lp: os.path.lexists(lp) for lp in full}
+        ctx.real_pre = {lp: os.path.lexists(lp) for lp in full
+                        # (coincide projects) the staging directory itself and its parents are made by the harness; logical
+                        # paths below DESTDIR may legitimately exist (another rule re-rooted there): the tree comparison decides
+                        if not (fixed and (A.Zones.under(fixed, lp) or A.Zones.under(lp, fixed)))}
         ctx.count('projects')
         ctx.count(f'projects:{spec["kind"]}')
         for h in histories:
@@ -742,16 +895,19 @@ def plan(chk: common.Check) -> T.List[T.Tuple[dict, T.List[str]]]:
     straced = 0
     for i, s in enumerate(specs):
         if quick:
-            hs = ['fresh', 'repeat', 'tags', 'skip', 'kill']
+            hs = ['fresh', 'repeat', 'tags', 'skip', 'kill', 'abort']
             wants = s['kind'] == 'c' or 'install_script' in s['features']
             if wants and straced < 4:
                 hs.append('strace')
                 straced += 1
         else:
-            hs = ['fresh', 'repeat', 'tags', 'skip', 'kill', 'combo', 'strace']
+            hs = ['fresh', 'repeat', 'tags', 'skip', 'kill', 'abort', 'combo', 'strace']
             if i % 3 == 0:
                 hs.append('tags2')
         out.append((s, hs))
+    # projects whose absolute install dirs / prefix textually start with the DESTDIR they are installed under
+    for s in G.gen_coincide(chk.seed, chk.tier, 3 if quick else 24):
+        out.append((s, ['fresh', 'repeat', 'tags', 'abort'] if quick else ['fresh', 'repeat', 'tags', 'skip', 'kill', 'abort', 'strace']))
     for p in G.directed_probes():
         out.append((p, p.get('histories', ['probe'])))
     return out
@@ -778,8 +934,13 @@ def main() -> int:
         chk.merge_counts(res['counters'])
         for k in res['cases']:
             chk.case(k)
+        per: T.Dict[str, int] = {}
         for m, w in res['violations']:
-            chk.violation(m, w)
+            per[m] = per.get(m, 0) + 1
+            if per[m] <= 3:          # the store is capped: keep room for every mechanism of every project
+                chk.violation(m, w)
+            else:
+                chk.count('violations-same-mechanism-same-project-not-stored')
         for why in res['inconclusive']:
             chk.inconclusive_case(why)
         if res['problem']:
@@ -801,7 +962,8 @@ def main() -> int:
                  ('monitor:skip-excluded-entries', 5), ('monitor:world-snapshots', 50), ('monitor:strace-runs', 2),
                  ('monitor:strace-mutating-syscalls', 50), ('projects-built-with-mini-ninja', 4),
                  ('monitor:kill-runs', 20), ('monitor:kill-created-nondirs', 100), ('monitor:kill-by-script-runs', 3),
-                 ('monitor:kill-uninstall-compared', 20)):
+                 ('monitor:kill-uninstall-compared', 20), ('monitor:abort-runs', 15), ('monitor:abort-created-dirs', 30),
+                 ('monitor:abort-uninstall-compared', 15), ('history-on-coincide-project', 8)):
         chk.require(k, n)
     return chk.finish(
         rule='one case = (generated project, history, DESTDIR form); distinct by (project kind, feature set, history, DESTDIR form, '
@@ -822,7 +984,7 @@ def replay(chk: common.Check, path: str) -> int:
     if proj.get('probe'):
         spec = [p for p in G.directed_probes() if p['probe'] == proj['probe']][0]
     else:
-        spec = G.gen_project(proj['seed'], proj['kind'])
+        spec = G.gen_project(proj['seed'], proj['kind'], coincide=bool(proj.get('coincide')))
     scratch = common.scratch_dir('c11')
     res = run_project((spec, chk.tier, time.time() + 600, [w['history']], scratch))
     again = [(m, x) for m, x in res['violations'] if m == w['mechanism']]
